@@ -4,6 +4,7 @@
 -/
 import ClairModel.Model.LayerFS
 import ClairModel.Proofs.Coalesce
+import ClairModel.Proofs.PathsC01
 
 namespace ClairModel.LayerFS
 open ClairModel.Coalesce
@@ -761,9 +762,9 @@ structure Tame (S : Scanners) (layers : List FSLayer) : Prop where
   paths : ∀ l ∈ layers, (l.entries.map (·.1)).Nodup
   /-- at most one whiteout entry per layer, and it is a regular file (finding whiteout-one-per-layer) -/
   oneWhiteout : ∀ l ∈ layers, (whiteoutsOf l).length ≤ 1 ∧ whiteoutsOf l = whiteoutFiles l
-  /-- on the paths of the stack `fileIsDeleted` is the OCI cover relation (clean relative paths, no root-level opaque marker) -/
-  delSpec : ∀ l ∈ layers, ∀ w ∈ whiteoutsOf l, fileIsDeleted "" w = false ∧
-    ∀ l' ∈ layers, ∀ p ∈ langPkgs S l', fileIsDeleted p.fp w = covers w p.fp
+  /-- no opaque marker at the root of a layer (`fileIsDeleted` ignores it; everywhere else it is
+      the OCI cover relation, theorem `fileIsDeleted_eq_covers`) -/
+  noRootOpaque : ∀ l ∈ layers, ∀ w ∈ whiteoutsOf l, ¬ (base w = opqName ∧ dir w = ".")
   /-- package files are hidden by whiteouts only (no file-replaces-directory games on their paths) -/
   hidesSpec : ∀ l ∈ layers, ∀ l' ∈ layers, ∀ p ∈ langPkgs S l',
     hides l p.fp = (whiteoutFiles l).any fun w => covers w p.fp
@@ -783,8 +784,7 @@ instance instDecidableTame (S : Scanners) (layers : List FSLayer) : Decidable (T
   let A1 := (layers.map (·.hash)).Nodup
   let A2 := ∀ l ∈ layers, (l.entries.map (·.1)).Nodup
   let A3 := ∀ l ∈ layers, (whiteoutsOf l).length ≤ 1 ∧ whiteoutsOf l = whiteoutFiles l
-  let A4 := ∀ l ∈ layers, ∀ w ∈ whiteoutsOf l, fileIsDeleted "" w = false ∧
-      ∀ l' ∈ layers, ∀ p ∈ langPkgs S l', fileIsDeleted p.fp w = covers w p.fp
+  let A4 := ∀ l ∈ layers, ∀ w ∈ whiteoutsOf l, ¬ (base w = opqName ∧ dir w = ".")
   let A5 := ∀ l ∈ layers, ∀ l' ∈ layers, ∀ p ∈ langPkgs S l', hides l p.fp = (whiteoutFiles l).any fun w => covers w p.fp
   let A6 := ∀ d ∈ S.osDbs, ∀ l ∈ layers, hides l d = false ∧ ∀ c ∈ fileOf l d, S.scanDB d c ≠ []
   let A7 := layers.Pairwise fun l l' => ∀ e ∈ l.entries, ∀ c ∈ fileOf l e.1, ∀ p ∈ S.scanFile e.1 c,
@@ -812,6 +812,28 @@ instance instDecidableTame (S : Scanners) (layers : List FSLayer) : Decidable (T
   decidable_of_iff (A1 ∧ A2 ∧ A3 ∧ A4 ∧ A5 ∧ A6 ∧ A7 ∧ A8 ∧ A9)
     ⟨fun ⟨a, b, c, d, e, f, g, h, i⟩ => ⟨a, b, c, d, e, f, g, h, i⟩,
      fun ⟨a, b, c, d, e, f, g, h, i⟩ => ⟨a, b, c, d, e, f, g, h, i⟩⟩
+
+theorem whiteoutsOf_isWhiteout {l : FSLayer} {w : String} (h : w ∈ whiteoutsOf l) : isWhiteout w = true := by
+  unfold whiteoutsOf at h
+  obtain ⟨e, _, he⟩ := List.mem_filterMap.1 h
+  cases hk : e.2 with
+  | file c =>
+    simp only [hk] at he
+    by_cases hw : isWhiteout e.1 = true
+    · simp only [hw, if_true, Option.some.injEq] at he; rw [← he]; exact hw
+    · simp [hw] at he
+  | dir =>
+    simp only [hk] at he
+    by_cases hw : isWhiteout e.1 = true
+    · simp only [hw, if_true, Option.some.injEq] at he; rw [← he]; exact hw
+    · simp [hw] at he
+
+/-- on a tame stack the resolver's test is the OCI cover relation, for every path -/
+theorem Tame.delSpec {S : Scanners} {layers : List FSLayer} (ht : Tame S layers) :
+    ∀ l ∈ layers, ∀ w ∈ whiteoutsOf l, fileIsDeleted "" w = false ∧
+      ∀ l' ∈ layers, ∀ p ∈ langPkgs S l', fileIsDeleted p.fp w = covers w p.fp :=
+  fun l hl w hw => ⟨fileIsDeleted_nofp w,
+    fun _ _ p _ => fileIsDeleted_eq_covers p.fp w (whiteoutsOf_isWhiteout hw) (ht.noRootOpaque l hl w hw)⟩
 
 /-! ### artifacts of a layer -/
 
